@@ -138,8 +138,8 @@ pub fn gen_op(
             let l_exp = Expected::from(right);
             constr.add(
                 "binary shift",
-                &l_exp,
                 &Expected::new(right.pos, &Type { name }),
+                &l_exp,
                 env,
             );
 
@@ -228,21 +228,21 @@ pub fn gen_range(
     );
     constr.add(
         &format!("{range_slice} from"),
-        &Expected::from(from),
         int_exp,
+        &Expected::from(from),
         env,
     );
     constr.add(
         &format!("{range_slice} to"),
-        &Expected::from(to),
         int_exp,
+        &Expected::from(to),
         env,
     );
     if let Some(step) = step {
         constr.add(
             &format!("{range_slice} step"),
-            &Expected::from(step),
             int_exp,
+            &Expected::from(step),
             env,
         );
     }
